@@ -4,21 +4,27 @@
 (*                                                                         *)
 (* A configuration = input kind x output mode x -o x --no-trailing-newline *)
 (*                   x program (value class) x ext/TLA kind x fault.       *)
-(* Slices (constant Slice):                                                *)
-(*   "all"    every compatible configuration                               *)
-(*   "core"   fault-free configurations without ext/TLA flags              *)
-(*   "binds"  fault-free configurations with ext/TLA/other flags           *)
-(*   "faults" configurations with an injected fault                        *)
-EXTENDS Cli, Json
+(* Constant Rate: 1 = every compatible configuration; q > 1 = the seeded     *)
+(* lattice sample { c : Hash(c) + seed = 0 (mod q) } (q prime, every        *)
+(* coefficient a unit mod q, so every pair of dimension values that occurs *)
+(* in the universe also occurs in the sample as long as the remaining      *)
+(* dimensions have q or more combinations).  The seed comes from the       *)
+(* environment variable C12_SEED; the q samples partition the universe.    *)
+EXTENDS Cli, Json, IOUtils
 
-CONSTANT Slice
+CONSTANT Rate
 
-Inputs == {"exec", "file", "stdin"}
-Modes  == {"json", "S", "y", "m", "Sy", "mS"}
+SetOf(s) == {s[i] : i \in 1..Len(s)}
+Idx(s, x) == CHOOSE i \in 1..Len(s) : s[i] = x
 
-Progs == {"str", "arr0", "arr2", "obj0", "objMixed", "objS", "num", "nested",
-          "rterr", "synerr", "staticerr", "arrErr2", "objErr2",
-          "funcReq", "funcDef", "funcObj"}
+InputSeq == <<"exec", "file", "stdin">>
+ModeSeq  == <<"json", "S", "y", "m", "Sy", "mS">>
+ProgSeq  == <<"str", "arr0", "arr2", "obj0", "objMixed", "objS", "num", "nested",
+              "rterr", "synerr", "staticerr", "arrErr2", "objErr2",
+              "funcReq", "funcDef", "funcObj">>
+Inputs == SetOf(InputSeq)
+Modes  == SetOf(ModeSeq)
+Progs  == SetOf(ProgSeq)
 
 ExtKinds == {"ext_str", "ext_str_env", "ext_env_unset", "ext_str_file", "ext_str_file_missing",
              "ext_str_file_badutf8", "ext_str_file_malformed", "ext_code", "ext_code_file",
@@ -29,10 +35,19 @@ TlaKinds == {"tla_str", "tla_str_env", "tla_env_unset", "tla_code", "tla_files",
              "tla_syntax_unused"}
 MiscKinds == {"stack_ok", "stack_bad", "trace_bad", "unknown_flag"}
 Kinds == {"none"} \cup ExtKinds \cup TlaKinds \cup MiscKinds
+KindSeq == <<"none", "ext_str", "ext_str_env", "ext_env_unset", "ext_str_file", "ext_str_file_missing",
+             "ext_str_file_badutf8", "ext_str_file_malformed", "ext_code", "ext_code_file",
+             "ext_code_lazy_unused", "ext_code_fail_used", "ext_code_syntax_unused",
+             "ext_code_syntax_used", "ext_unknown_used", "ext_dup", "ext_two",
+             "tla_str", "tla_str_env", "tla_env_unset", "tla_code", "tla_files", "tla_override",
+             "tla_only_y", "tla_unknown", "tla_dup", "tla_lazy_unused", "tla_fail_used",
+             "tla_syntax_unused", "stack_ok", "stack_bad", "trace_bad", "unknown_flag">>
+ASSUME SetOf(KindSeq) = Kinds
 
-Faults == {"none", "input_missing", "input_is_dir", "input_dangling", "stdin_closed",
-           "out_missing_dir", "out_is_dir", "mdir_missing", "mdir_is_file",
-           "stdout_full", "stdout_closed"}
+FaultSeq == <<"none", "input_missing", "input_is_dir", "input_dangling", "stdin_closed",
+              "out_missing_dir", "out_is_dir", "mdir_missing", "mdir_is_file",
+              "stdout_full", "stdout_closed">>
+Faults == SetOf(FaultSeq)
 
 \* which program is paired with which ext/TLA kind
 Pair(p, e) ==
@@ -52,11 +67,11 @@ FaultPair(c) ==
   c.fault = "none" \/ c.ext = "none"
   \/ <<c.prog, c.ext>> \in {<<"str", "ext_str">>, <<"objS", "ext_str_file">>, <<"funcReq", "tla_str">>}
 
-InSlice(c) ==
-  CASE Slice = "all"    -> TRUE
-    [] Slice = "core"   -> c.fault = "none" /\ c.ext = "none"
-    [] Slice = "binds"  -> c.fault = "none" /\ c.ext # "none"
-    [] Slice = "faults" -> c.fault # "none"
+SeedVal == IF "C12_SEED" \in DOMAIN IOEnv THEN atoi(IOEnv.C12_SEED) ELSE 0
+Hash(c) == 3 * Idx(InputSeq, c.input) + 5 * Idx(ModeSeq, c.mode) + 7 * (IF c.out THEN 1 ELSE 0)
+           + 11 * (IF c.ntn THEN 1 ELSE 0) + 2 * Idx(ProgSeq, c.prog) + 6 * Idx(KindSeq, c.ext)
+           + 9 * Idx(FaultSeq, c.fault)
+InSlice(c, sv) == Rate = 1 \/ (Hash(c) + sv) % Rate = 0
 
 Cfg(i, m, o, n, p, e, f) ==
   [input |-> i, mode |-> m, out |-> o, ntn |-> n, prog |-> p, ext |-> e, fault |-> f]
@@ -69,10 +84,12 @@ MCInit ==
     /\ InitRun(Cfg("exec", "json", FALSE, FALSE, p, e, "none"))
 
 MCConfigure ==
-  \E i \in Inputs, m \in Modes, o \in BOOLEAN, n \in BOOLEAN, f \in Faults :
-    LET c == Cfg(i, m, o, n, cfg.prog, cfg.ext, f) IN
-    /\ (FaultApplies(c) /\ FaultPair(c) /\ InSlice(c)) = TRUE
-    /\ Configure(c)
+  /\ phase = "Configure"
+  /\ \E sv \in {SeedVal} :               \* the environment is read once per evaluation, not per candidate
+     \E i \in Inputs, m \in Modes, o \in BOOLEAN, n \in BOOLEAN, f \in Faults :
+       LET c == Cfg(i, m, o, n, cfg.prog, cfg.ext, f) IN
+       /\ (FaultApplies(c) /\ FaultPair(c) /\ InSlice(c, sv)) = TRUE
+       /\ Configure(c)
 
 MCNext == MCConfigure \/ Next
 
@@ -80,7 +97,8 @@ MCNext == MCConfigure \/ Next
 Laws ==
   /\ Contract
   /\ (phase = "ParseArgs" => ConfigLaws(cfg))
-  /\ ((phase = "Manifest" /\ fidx = 0) => ViewLaws(val))
+  \* the value reaching Manifest depends on (program, kind) only: once per initial state
+  /\ (phase = "Configure" => ViewLaws(FinalValue(cfg)))
 
 \* every terminal state = one legal outcome of its configuration
 Emit ==
